@@ -37,6 +37,7 @@ type siteCase struct {
 	serveCase
 	tries  []tryFile
 	cfname string
+	policy byte // try_files { policy … }: '0' none given, '1' first_exist_fallback, 'L', 'S', 'M'
 }
 
 var (
@@ -95,6 +96,9 @@ func (c siteCase) caddyfile() string {
 			}
 			b.WriteString(" " + tok(s))
 		}
+		if c.policy != '0' {
+			b.WriteString(" {\n\t\tpolicy " + map[byte]string{'1': "first_exist_fallback", 'L': "largest_size", 'S': "smallest_size", 'M': "most_recently_modified"}[c.policy] + "\n\t}")
+		}
 		b.WriteString("\n")
 	}
 	b.WriteString("\tfile_server")
@@ -128,8 +132,15 @@ func (c siteCase) caddyfile() string {
 
 func parseSite(f []string) (siteCase, bool) {
 	var c siteCase
-	if len(f) != 10 {
+	if len(f) != 10 && len(f) != 11 {
 		return c, false
+	}
+	c.policy = '0'
+	if len(f) == 11 {
+		if len(f[10]) != 1 || !strings.Contains("01LSM", f[10]) {
+			return c, false
+		}
+		c.policy = f[10][0]
 	}
 	var e [4]error
 	var ok1, ok2, ok3, ok4, ok5 bool
